@@ -288,6 +288,12 @@ def gen_smb1(rng, fault=None):
         if rng.chance(1, 4):
             ds.append(ds[0])
         if rng.chance(1, 3):
+            # a dialect name of a length around the usual buffer sizes, made of / ending in octets that are not ASCII
+            # (the responder keeps the names as text)
+            L = rng.choice([1, 15, 16, 17, 30, 31, 32, 33, 63, 64, 65, 127, 128, 129, 255, 256, 300])
+            name = bytes(rng.choice([0x41 + rng.below(26), 0x41 + rng.below(26), 0x80 + rng.below(128)]) for _ in range(L - 1)) + bytes([rng.choice([0xe9, 0x80, 0xff, 0xc3, 0x41])])
+            ds.insert(rng.below(len(ds) + 1), name.replace(b'\0', b'A'))
+        if rng.chance(1, 3):
             # a dialect offered twice, somewhere before the end (duplicates in front of the selected one)
             ds.insert(rng.below(len(ds)), rng.choice(ds))
         if fault == 'nodialect':
